@@ -38,14 +38,16 @@ theorem aget_aset_ne {α} (l : List (String × α)) (k k' : String) (v : α) (h 
   simp only [aset, aget, Ne.symm h, if_false]
   exact aget_filter_ne l k k' h
 
-variable {σ : Type} (abs : σ → Dict) (istep : σ → StoreOp → σ × Out)
+variable {σ : Type} (R : σ → Dict → Prop) (ok : StoreOp → Prop) (istep : σ → StoreOp → σ × Out)
 
-/-- the wrapped store behaves like the dictionary (same outputs, abstraction commutes) -/
-def Refines : Prop :=
-  ∀ s op, abs (istep s op).1 = ((abs s).step op).1 ∧ (istep s op).2 = ((abs s).step op).2
+/-- the wrapped store simulates the dictionary on the admissible operations `ok`: related states stay
+related and the outputs are equal -/
+def Sim : Prop :=
+  ∀ s d op, ok op → R s d → R (istep s op).1 (d.step op).1 ∧ (istep s op).2 = (d.step op).2
 
-/-- every cached entry is present, with that value, in the wrapped store -/
-def LruInv (s : Lru σ) : Prop := ∀ kv ∈ s.cache, aget (abs s.inner).blobs kv.1 = some kv.2
+/-- the wrapper's state is related to a dictionary: the wrapped store is, and every cached entry is
+present, with that value, in the dictionary -/
+def LruRel (s : Lru σ) (d : Dict) : Prop := R s.inner d ∧ ∀ kv ∈ s.cache, aget d.blobs kv.1 = some kv.2
 
 theorem cacheGet_spec {c : Cache} {k : Key} {v : Val} {c' : Cache} (h : cacheGet c k = some (v, c')) :
     (k, v) ∈ c ∧ (∀ kv ∈ c', kv ∈ c) ∧ c'.length ≤ c.length := by
@@ -81,10 +83,11 @@ theorem cachePut_spec (cap : Nat) (c : Cache) (k : Key) (v : Val) :
 theorem step_blobs_of_has (d : Dict) (k : Key) : (d.step (.has k)).1 = d := rfl
 theorem step_blobs_of_fetch (d : Dict) (k : Key) : (d.step (.fetch k)).1 = d := rfl
 
-theorem lru_step (href : Refines abs istep) (cap : Nat) (s : Lru σ) (op : StoreOp) (hinv : LruInv abs s) :
-    LruInv abs (Lru.step cap istep s op).1 ∧
-    abs (Lru.step cap istep s op).1.inner = ((abs s.inner).step op).1 ∧
-    (Lru.step cap istep s op).2 = ((abs s.inner).step op).2 := by
+theorem lru_step (hsim : Sim R ok istep) (hokhas : ∀ k, ok (.fetch k) → ok (.has k)) (cap : Nat)
+    (s : Lru σ) (d : Dict) (op : StoreOp) (hop : ok op) (hrel : LruRel R s d) :
+    LruRel R (Lru.step cap istep s op).1 (d.step op).1 ∧
+    (Lru.step cap istep s op).2 = (d.step op).2 := by
+  obtain ⟨hR, hinv⟩ := hrel
   cases op with
   | has k =>
     simp only [Lru.step]
@@ -92,44 +95,36 @@ theorem lru_step (href : Refines abs istep) (cap : Nat) (s : Lru σ) (op : Store
     | some vc =>
       obtain ⟨v, c'⟩ := vc
       obtain ⟨hm, hsub, _⟩ := cacheGet_spec hg
-      refine ⟨fun kv hkv => hinv kv (hsub kv hkv), rfl, ?_⟩
       have := hinv _ hm
-      simp [Dict.step, this]
+      exact ⟨⟨hR, fun kv hkv => hinv kv (hsub kv hkv)⟩, by simp [Dict.step, this]⟩
     | none =>
-      obtain ⟨h1, h2⟩ := href s.inner (.has k)
-      refine ⟨?_, h1, h2⟩
-      intro kv hkv
-      simp only [h1, step_blobs_of_has]
-      exact hinv kv hkv
+      obtain ⟨h1, h2⟩ := hsim s.inner d (.has k) hop hR
+      exact ⟨⟨h1, fun kv hkv => hinv kv hkv⟩, h2⟩
   | fetch k =>
     simp only [Lru.step]
     cases hg : cacheGet s.cache k with
     | some vc =>
       obtain ⟨v, c'⟩ := vc
       obtain ⟨hm, hsub, _⟩ := cacheGet_spec hg
-      refine ⟨fun kv hkv => hinv kv (hsub kv hkv), rfl, ?_⟩
       have := hinv _ hm
-      simp [Dict.step, this]
+      exact ⟨⟨hR, fun kv hkv => hinv kv (hsub kv hkv)⟩, by simp [Dict.step, this]⟩
     | none =>
-      obtain ⟨h1, h2⟩ := href s.inner (.fetch k)
+      obtain ⟨h1, h2⟩ := hsim s.inner d (.fetch k) hop hR
       simp only [step_blobs_of_fetch] at h1
       simp only []
-      have hout : (istep s.inner (.fetch k)).2 = .val ((aget (abs s.inner).blobs k).getD none) := h2
-      cases hb : aget (abs s.inner).blobs k with
+      have hout : (istep s.inner (.fetch k)).2 = .val ((aget d.blobs k).getD none) := h2
+      cases hb : aget d.blobs k with
       | none =>
         rw [hb] at hout
         simp only [Option.getD_none] at hout
         rw [hout]
         simp only []
-        obtain ⟨g1, g2⟩ := href (istep s.inner (.fetch k)).1 (.has k)
-        simp only [step_blobs_of_has, h1] at g1
+        obtain ⟨g1, g2⟩ := hsim (istep s.inner (.fetch k)).1 d (.has k) (hokhas k hop) h1
+        simp only [step_blobs_of_has] at g1
         have g2' : (istep (istep s.inner (.fetch k)).1 (.has k)).2 = .bool false := by
-          rw [g2, h1]; simp [Dict.step, hb]
+          rw [g2]; simp [Dict.step, hb]
         rw [g2']
-        refine ⟨?_, g1, by simp [Dict.step, hb]⟩
-        intro kv hkv
-        simp only [g1]
-        exact hinv kv hkv
+        exact ⟨⟨g1, fun kv hkv => hinv kv hkv⟩, by simp [Dict.step, hb]⟩
       | some v0 =>
         rw [hb] at hout
         simp only [Option.getD_some] at hout
@@ -137,63 +132,57 @@ theorem lru_step (href : Refines abs istep) (cap : Nat) (s : Lru σ) (op : Store
         cases v0 with
         | some n =>
           simp only []
-          refine ⟨?_, h1, by simp [Dict.step, hb]⟩
+          refine ⟨⟨h1, ?_⟩, by simp [Dict.step, hb]⟩
           intro kv hkv
-          simp only [h1]
           rcases (cachePut_spec cap s.cache k (some n)).1 kv hkv with h | h
           · exact hinv kv h
           · subst h; exact hb
         | none =>
           simp only []
-          obtain ⟨g1, g2⟩ := href (istep s.inner (.fetch k)).1 (.has k)
-          simp only [step_blobs_of_has, h1] at g1
+          obtain ⟨g1, g2⟩ := hsim (istep s.inner (.fetch k)).1 d (.has k) (hokhas k hop) h1
+          simp only [step_blobs_of_has] at g1
           have g2' : (istep (istep s.inner (.fetch k)).1 (.has k)).2 = .bool true := by
-            rw [g2, h1]; simp [Dict.step, hb]
+            rw [g2]; simp [Dict.step, hb]
           rw [g2']
-          refine ⟨?_, g1, by simp [Dict.step, hb]⟩
+          refine ⟨⟨g1, ?_⟩, by simp [Dict.step, hb]⟩
           intro kv hkv
-          simp only [g1]
           rcases (cachePut_spec cap s.cache k none).1 kv hkv with h | h
           · exact hinv kv h
           · subst h; exact hb
   | store k v =>
     simp only [Lru.step]
-    obtain ⟨h1, h2⟩ := href s.inner (.store k v)
-    refine ⟨?_, h1, h2⟩
+    obtain ⟨h1, h2⟩ := hsim s.inner d (.store k v) hop hR
+    refine ⟨⟨h1, ?_⟩, h2⟩
     intro kv hkv
-    simp only [h1, Dict.step]
+    simp only [Dict.step]
     have hk := mem_filter.mp hkv
     have hne : kv.1 ≠ k := by simpa using hk.2
     rw [aget_aset_ne _ _ _ _ hne]
     exact hinv kv hk.1
   | sync ps =>
     simp only [Lru.step]
-    obtain ⟨h1, h2⟩ := href s.inner (.sync ps)
-    refine ⟨?_, h1, h2⟩
-    intro kv hkv
-    simp only [h1, Dict.step]
-    exact hinv kv hkv
+    obtain ⟨h1, h2⟩ := hsim s.inner d (.sync ps) hop hR
+    exact ⟨⟨h1, fun kv hkv => by simpa [Dict.step] using hinv kv hkv⟩, h2⟩
   | fetchPaths ps =>
     simp only [Lru.step]
-    obtain ⟨h1, h2⟩ := href s.inner (.fetchPaths ps)
-    refine ⟨?_, h1, h2⟩
+    obtain ⟨h1, h2⟩ := hsim s.inner d (.fetchPaths ps) hop hR
+    refine ⟨⟨h1, ?_⟩, h2⟩
     intro kv hkv
-    have : ((abs s.inner).step (.fetchPaths ps)).1 = abs s.inner := by
+    have : (d.step (.fetchPaths ps)).1 = d := by
       simp only [Dict.step]; split <;> rfl
-    simp only [h1, this]
+    rw [this]
     exact hinv kv hkv
 
-theorem lru_run (href : Refines abs istep) (cap : Nat) : ∀ (ops : List StoreOp) (s : Lru σ), LruInv abs s →
-    (runOps (Lru.step cap istep) s ops).2 = (runOps Dict.step (abs s.inner) ops).2 ∧
-    abs (runOps (Lru.step cap istep) s ops).1.inner = (runOps Dict.step (abs s.inner) ops).1 ∧
-    LruInv abs (runOps (Lru.step cap istep) s ops).1
-  | [], s, h => ⟨rfl, rfl, h⟩
-  | op :: ops, s, h => by
-    obtain ⟨hi, ha, ho⟩ := lru_step abs istep href cap s op h
-    obtain ⟨r1, r2, r3⟩ := lru_run href cap ops _ hi
+theorem lru_run (hsim : Sim R ok istep) (hokhas : ∀ k, ok (.fetch k) → ok (.has k)) (cap : Nat) :
+    ∀ (ops : List StoreOp) (s : Lru σ) (d : Dict), (∀ op ∈ ops, ok op) → LruRel R s d →
+    (runOps (Lru.step cap istep) s ops).2 = (runOps Dict.step d ops).2 ∧
+    LruRel R (runOps (Lru.step cap istep) s ops).1 (runOps Dict.step d ops).1
+  | [], s, d, _, h => ⟨rfl, h⟩
+  | op :: ops, s, d, hok, h => by
+    obtain ⟨hi, ho⟩ := lru_step R ok istep hsim hokhas cap s d op (hok op mem_cons_self) h
+    obtain ⟨r1, r2⟩ := lru_run hsim hokhas cap ops _ _ (fun o ho' => hok o (mem_cons_of_mem _ ho')) hi
     simp only [runOps]
-    rw [← ha]
-    exact ⟨by rw [ho, r1], r2, r3⟩
+    exact ⟨by rw [ho, r1], r2⟩
 
 theorem lru_step_bounded (cap : Nat) (s : Lru σ) (op : StoreOp) (h : s.cache.length ≤ cap) :
     (Lru.step cap istep s op).1.cache.length ≤ cap := by
